@@ -51,6 +51,10 @@ func sep(layout string) string {
 		return " // package z; import \"z.proto\";\n"
 	case "tab_crlf":
 		return "\t\r\n"
+	case "starcomment":
+		return " /** import \"s.proto\"; **/ "
+	case "tight":
+		return ""
 	}
 	return " "
 }
@@ -61,12 +65,24 @@ func join(layout string, toks ...string) string {
 	var sb strings.Builder
 	for i, t := range toks {
 		if i > 0 {
-			sb.WriteString(sep(layout))
+			if layout == "tight" {
+				if wordEnd(toks[i-1]) && wordStart(t) {
+					sb.WriteString(" ")
+				}
+			} else {
+				sb.WriteString(sep(layout))
+			}
 		}
 		sb.WriteString(t)
 	}
 	return sb.String()
 }
+
+func isWordByte(b byte) bool {
+	return b == '_' || b == '.' || (b >= '0' && b <= '9') || (b >= 'a' && b <= 'z') || (b >= 'A' && b <= 'Z')
+}
+func wordEnd(t string) bool   { return t != "" && isWordByte(t[len(t)-1]) }
+func wordStart(t string) bool { return t != "" && isWordByte(t[0]) }
 
 func pkgTokens(form string) []string {
 	switch form {
@@ -99,6 +115,9 @@ func pathTokens(form string, n int) []string {
 		return []string{`"\x66"`, fmt.Sprintf(`"%d.proto"`, n)}
 	case "split3":
 		return []string{`'f'`, fmt.Sprintf(`"%d"`, n), `'.proto'`}
+	case "octesc":
+		// 'f' = \146 ; '.' = \56 followed by a non-octal character
+		return []string{fmt.Sprintf(`"\146%d\56proto"`, n)}
 	}
 	panic("path form " + form)
 }
@@ -123,6 +142,11 @@ func fill(kind string, layout string) string {
 		return join(layout, "enum", "E1", "{", "import", "=", "0", ";", "package", "=", "1", ";", "}")
 	case "empty_stmt":
 		return ";"
+	case "blockcomment_stars":
+		return "/** package no3; **/ /***/ /* import \"no4.proto\"; **/ /****/"
+	case "option_str_octal":
+		return join(layout, "option", "go_package", "=", `"a\7z\18\0019;import \"no5.proto\";"`, ";") + sep(layout) +
+			join(layout, "option", "java_package", "=", `"com.foo\0"`, ";")
 	case "service":
 		return join(layout, "service", "S1", "{", "rpc", "import", "(", "M", ")", "returns", "(", "stream", "M", ")", "{", "option", "deprecated", "=", "true", ";", "}", "}")
 	case "extend_brackets":
@@ -154,7 +178,9 @@ func render(c *tcase) string {
 		case "FILL":
 			sb.WriteString(fill(it.Fill, c.Layout))
 		}
-		sb.WriteString(sep(c.Layout))
+		if c.Layout != "tight" {
+			sb.WriteString(sep(c.Layout))
+		}
 	}
 	return sb.String()
 }
